@@ -79,7 +79,8 @@ def parse(out, res):
             cur = {"kind": "action_property", "name": name.group(1) if name else "?", "states": []}
             res.violations.append(cur)
         elif code == 2116:      # temporal properties were violated
-            cur = {"kind": "temporal", "name": "temporal", "states": []}
+            name = re.search(r"Temporal property (\S+) was violated", text)
+            cur = {"kind": "temporal", "name": name.group(1) if name else "temporal", "states": []}
             res.violations.append(cur)
         elif code == 2114:      # deadlock
             cur = {"kind": "deadlock", "name": "deadlock", "states": []}
@@ -106,7 +107,7 @@ def parse(out, res):
             res.completed = True
         elif code == 2186:
             res.finished = True
-        elif sev == 1 and code not in (2110, 2107, 2112, 2116, 2114, 2121, 2217, 2218, 2122):
+        elif sev == 1 and code not in (2110, 2107, 2112, 2116, 2114, 2121, 2217, 2218, 2122, 2264):
             res.errors.append("[%d] %s" % (code, text[:2000]))
         elif code in (2772, 2221, 2773, 2774, 2775):
             # coverage lines: "<Action line..., col... of module M>: distinct:generated"
